@@ -1,8 +1,12 @@
 (* ViDefs.v -- C08: the region rule of vc_motion and the text operations of vi_delete / vi_yank /
    vc_put on the character view of the buffer (MotDefs), with the registers of RegDefs.
-   Only definitions.  Not modelled here (explored by the Python reference of tools/props/c08.py
-   against the real editor): insert mode (led_input), vi_change, vi_case, vi_shift, vc_join,
-   vc_replace, and the key-program interpreter. *)
+   Second half: the interpreter [exec] of key programs -- mirror of vc_motion, vi_yank, vi_delete,
+   vi_change, vi_case, vi_shift, vc_put, vc_join, vc_replace, vc_insert (vi.c) and of led_input /
+   led_line (led.c: keys ^H DEL ^U ^W ^T ^D, autoindent on) over the state (buffer, cursor state of
+   MotDefs, registers of RegDefs).  Text handed to lbuf_edit is cut into lines on the character
+   view (split_text); for valid UTF-8 that is the byte-wise cut of lbuf_replace.
+   Not modelled: the ! filter, u, ., marks, searches, insert-mode keys ^V ^K ^P ^R ^A ^F ^E,
+   keymaps other than 0, the ai option switched off.  Only definitions. *)
 From Coq Require Import List NArith ZArith Bool.
 From NV Require Import Bytes UcDefs UcSpec MotDefs RegDefs.
 Import ListNotations.
@@ -50,17 +54,8 @@ Definition lbuf_region (b : buf) (r1 o1 r2 o2 : Z) : list chr :=
   end.
 Definition flat (cs : list chr) : bytes := concat cs.
 
-(* vi_delete, character-wise inside one line / line-wise: new buffer and the register traffic *)
 Definition set_row (b : buf) (r : Z) (ls : list line) (n : Z) : buf :=     (* lbuf_edit(lines, r, r + n) *)
   firstn (Z.to_nat r) b ++ ls ++ skipn (Z.to_nat (r + n)) b.
-Definition vi_delete (b : buf) (R : regs) (ybuf : N) (g : region) : buf * regs :=
-  let txt := if g_ln g then lbuf_region b (g_r1 g) 0 (g_r2 g) (-1) else lbuf_region b (g_r1 g) (g_o1 g) (g_r2 g) (g_o2 g) in
-  let R' := reg_put R ybuf (flat txt) (g_ln g) in
-  if g_ln g then (set_row b (g_r1 g) [] (g_r2 g - g_r1 g + 1), R')
-  else match getl b (g_r1 g), getl b (g_r2 g) with
-       | Some l1, Some l2 => (set_row b (g_r1 g) [sub_l l1 0 (g_o1 g) ++ sub_l l2 (g_o2 g) (-1)] (g_r2 g - g_r1 g + 1), R')
-       | _, _ => (b, R')
-       end.
 Definition vi_yank (b : buf) (R : regs) (ybuf : N) (g : region) : regs :=
   let txt := if g_ln g then lbuf_region b (g_r1 g) 0 (g_r2 g) (-1) else lbuf_region b (g_r1 g) (g_o1 g) (g_r2 g) (g_o2 g) in
   reg_put R ybuf (flat txt) (g_ln g).
@@ -77,3 +72,355 @@ Definition put_lines (b : buf) (r : Z) (ls : list line) : buf := set_row b r ls 
 Definition chr_valid (c : chr) : Prop := exists k, scalar k /\ c = encode k.
 Definition line_valid (l : line) : Prop := Forall chr_valid l.
 Definition buf_valid (b : buf) : Prop := Forall line_valid b.
+
+(* ====================================================================================== *)
+(* the interpreter of key programs                                                          *)
+(* ====================================================================================== *)
+Definition nlc : chr := [10%N].
+Definition is_nlb (c : chr) : bool := N.eqb (b0 c) 10.                       (* s[0] == '\n' *)
+Definition is_blankc (c : chr) : bool := N.eqb (b0 c) 32 || N.eqb (b0 c) 9.  (* s[0] == ' ' || s[0] == '\t' *)
+Definition is_nil {A} (l : list A) : bool := match l with [] => true | _ => false end.
+Definition optl (ol : option line) : line := match ol with Some l => l | None => [] end.   (* uc_sub(NULL, ..) = "" *)
+
+(* lbuf_replace: the text is cut after every "\n"; a last piece without terminator gets one *)
+Fixpoint split_text (t : list chr) : list line :=
+  match t with
+  | [] => []
+  | c :: r => if is_nlb c then [c] :: split_text r
+              else match split_text r with
+                   | [] => [[c; nlc]]
+                   | l :: ls => (c :: l) :: ls
+                   end
+  end.
+(* lbuf.c: lbuf_edit (None = NULL) *)
+Definition lbuf_edit (b : buf) (t : option (list chr)) (beg en : Z) : buf :=
+  let n := blen b in
+  let beg := Z.min beg n in
+  let en := Z.min en n in
+  match t with
+  | None => if beg =? en then b else set_row b beg [] (en - beg)
+  | Some t => set_row b beg (split_text t) (en - beg)
+  end.
+(* vi_delete: new buffer and the register traffic *)
+Definition vi_delete (b : buf) (R : regs) (ybuf : N) (g : region) : buf * regs :=
+  let txt := if g_ln g then lbuf_region b (g_r1 g) 0 (g_r2 g) (-1) else lbuf_region b (g_r1 g) (g_o1 g) (g_r2 g) (g_o2 g) in
+  let R' := reg_put R ybuf (flat txt) (g_ln g) in
+  if g_ln g then (lbuf_edit b None (g_r1 g) (g_r2 g + 1), R')
+  else (lbuf_edit b (Some (sub_l (optl (getl b (g_r1 g))) 0 (g_o1 g) ++ sub_l (optl (getl b (g_r2 g))) (g_o2 g) (-1)))
+                  (g_r1 g) (g_r2 g + 1), R').
+Definition count_nl (t : list chr) : Z := Z.of_nat (length (filter is_nlb t)).
+(* vi.c: linecount(s) - 1 for a non-NULL s = the number of newlines *)
+
+Fixpoint span_blank (l : list chr) : list chr * list chr :=
+  match l with
+  | c :: r => if is_blankc c then let (a, z) := span_blank r in (c :: a, z) else ([], l)
+  | [] => ([], [])
+  end.
+Fixpoint span_blank_n (n : nat) (l : list chr) : list chr * list chr :=
+  match n with
+  | O => ([], l)
+  | S n' => match l with
+            | c :: r => if is_blankc c then let (a, z) := span_blank_n n' r in (c :: a, z) else ([], l)
+            | [] => ([], [])
+            end
+  end.
+(* vi.c: vi_indents (xai = 1) *)
+Definition vi_indents (ol : option line) : list chr := fst (span_blank (optl ol)).
+
+(* ---------- led.c ---------- *)
+Definition ai_max : nat := 127.                      (* char ai[128] of led_input *)
+(* led_lastword: index where the last word of the typed text starts *)
+Fixpoint lw_space (sb : list chr) (r : nat) : nat :=
+  match r with O => O | S r' => if uc_isspace (nth r sb []) then lw_space sb r' else r end.
+Fixpoint lw_kind (sb : list chr) (kind : N) (r : nat) : nat :=
+  match r with O => O | S r' => if N.eqb (uc_kind (nth r' sb [])) kind then lw_kind sb kind r' else r end.
+Definition led_lastword (sb : list chr) : nat :=
+  match sb with
+  | [] => O
+  | _ => let r := lw_space sb (length sb - 1) in
+         let kind := match r with O => 0%N | _ => uc_kind (nth r sb []) end in
+         lw_kind sb kind r
+  end.
+(* one key of led_line; state = (typed text of this line, autoindent buffer) *)
+Definition led_key (pref_empty : bool) (st : list chr * list chr) (k : chr) : list chr * list chr :=
+  let (sb, ai) := st in
+  let c := b0 k in
+  if N.eqb c 8 || N.eqb c 127 then (removelast sb, ai)                     (* ^H DEL: sbuf_cut(led_lastchar) *)
+  else if N.eqb c 21 then ([], ai)                                         (* ^U *)
+  else if N.eqb c 23 then (firstn (led_lastword sb) sb, ai)                (* ^W *)
+  else if N.eqb c 20 then (sb, if Nat.ltb (length ai) ai_max then ai ++ [[9%N]] else ai)     (* ^T *)
+  else if N.eqb c 4 then                                                    (* ^D *)
+    ((if is_nil ai && pref_empty then match sb with c0 :: r => if is_blankc c0 then r else sb | [] => sb end else sb),
+     removelast ai)
+  else (sb ++ [k], ai).
+Definition led_line (pref_empty : bool) (keys : list chr) (ai : list chr) : list chr * list chr :=
+  fold_left (led_key pref_empty) keys ([], ai).
+
+(* the typed keys of one insert, cut at the newline keys (never empty) *)
+Fixpoint split_typed (t : list chr) : list (list chr) :=
+  match t with
+  | [] => [[]]
+  | k :: r => if is_nlb k then [] :: split_typed r
+              else match split_typed r with
+                   | s :: ss => (k :: s) :: ss
+                   | [] => [[k]]
+                   end
+  end.
+(* led_input: the loop; returns the replacement text and post as it is at the end (its leading
+   blanks are stripped after every newline) *)
+Fixpoint led_loop (segs : list (list chr)) (pref post ai acc : list chr) {struct segs} : list chr * list chr :=
+  match segs with
+  | [] => (acc ++ post, post)
+  | seg :: rest =>
+      let '(ln, ai) := led_line (is_nil pref) seg ai in
+      let sp := length (fst (span_blank ln)) in
+      let last := is_nil rest in
+      let use_ai := negb (Nat.eqb (length ln) sp) || negb (is_nil pref)
+                    || (last && match post with c :: _ => negb (is_nlb c) | [] => false end) in
+      let acc := acc ++ (if use_ai then ai else []) ++ pref ++ ln ++ (if last then [] else [nlc]) in
+      let ai := if is_nil pref then ai ++ firstn (Nat.min sp (ai_max - length ai)) ln else ai in
+      if last then (acc ++ post, post)
+      else led_loop rest [] (snd (span_blank post)) ai acc
+  end.
+Definition led_input (pref post typed : list chr) : list chr * list chr :=
+  let (ai, pref') := span_blank_n ai_max pref in
+  led_loop (split_typed typed) pref' post ai [].
+
+(* vi.c: charcount(text, post) for text = head ++ post: the characters of head after its last newline *)
+Definition charcount (text post : list chr) : Z :=
+  if slen text <? slen post then 0
+  else fold_left (fun n c => if is_nlb c then 0 else n + 1) (firstn (length text - length post) text) 0.
+(* vi.c: vi_nextline, n times, on (xrow, xtop) *)
+Fixpoint nextlines (rows : Z) (n : nat) (rt : Z * Z) : Z * Z :=
+  match n with
+  | O => rt
+  | S n' => let (r, t) := rt in nextlines rows n' (if r =? t + rows - 1 then (r + 1, t + 1) else (r + 1, t))
+  end.
+(* vi.c: vi_input: replacement, row = linecount(rep) - 1, off = max 0 (charcount - 1), newline keys typed *)
+Definition vi_input (pref post typed : list chr) : list chr * Z * Z * nat :=
+  let (rep, post') := led_input pref post typed in
+  (rep, count_nl rep, Z.max 0 (charcount rep post' - 1), (length (split_typed typed) - 1)%nat).
+
+(* ---------- the state ---------- *)
+Record est := mk_est { s_buf : buf; s_vs : vst; s_regs : regs }.
+Definition vs_pos (s : vst) (r o : Z) : vst := mk_vst r o (v_col s) (v_top s) (v_cl s) (v_cc s) (v_pcol s).
+Definition vs_top (s : vst) (t : Z) : vst := mk_vst (v_row s) (v_off s) (v_col s) t (v_cl s) (v_cc s) (v_pcol s).
+Definition vs_col (s : vst) (c : Z) : vst := mk_vst (v_row s) (v_off s) c (v_top s) (v_cl s) (v_cc s) (v_pcol s).
+Definition vs_mot (s : vst) (cl : chr) (cc : N) (pc : Z) : vst := mk_vst (v_row s) (v_off s) (v_col s) (v_top s) cl cc pc.
+(* the end of one round of vi(): vi_wfix; if (mod) xcol = vi_off2col(xb, xrow, xoff) *)
+Definition finish (rows : Z) (b : buf) (R : regs) (s : vst) (md : bool) : est :=
+  let s1 := vi_wfix b rows s in
+  mk_est b (if md then vs_col s1 (vi_off2col b (v_row s1) (v_off s1)) else s1) R.
+
+(* ---------- vc_motion ---------- *)
+Inductive okey := Od | Oy | Oc | Olt | Ogt | Otilde | Ogu | OgU.
+Inductive tgt := TMot (k : mkey) | TDbl.             (* a motion key, or the operator key doubled *)
+Inductive tres := TFuel | TFail (cl : chr) (cc : N) | TOk (k : mkey) (r2 o2 : Z) (cl : chr) (cc : N) (pc : Z).
+Definition op_target (b : buf) (rows : Z) (s : vst) (a1 a2 : Z) (t : tgt) (o1 : Z) : tres :=
+  let cnt := (if a1 =? 0 then 1 else a1) * (if a2 =? 0 then 1 else a2) in
+  let has := negb (a1 =? 0) || negb (a2 =? 0) in
+  match t with
+  | TDbl => let r := Z.min (v_row s + cnt - 1) (blen b - 1) in
+            TOk Kunder (if r <? 0 then 0 else r) (-1) (v_cl s) (v_cc s) (v_pcol s)
+  | TMot k => match vi_motion b rows (v_top s) (v_cl s) (v_cc s) (v_pcol s) has cnt k (v_row s) o1 with
+              | MvFuel => TFuel
+              | MvFail cl cc => TFail cl cc
+              | MvOk r o cl cc pc => TOk k r o cl cc pc
+              end
+  end.
+Definition region_text (b : buf) (g : region) : list chr :=
+  if g_ln g then lbuf_region b (g_r1 g) 0 (g_r2 g) (-1) else lbuf_region b (g_r1 g) (g_o1 g) (g_r2 g) (g_o2 g).
+
+(* vi_change *)
+Definition vi_change (rows : Z) (b : buf) (R : regs) (s : vst) (ybuf : N) (g : region) (typed : list chr) : est :=
+  let R' := reg_put R ybuf (flat (region_text b g)) (g_ln g) in
+  let pref := if g_ln g then vi_indents (getl b (g_r1 g)) else sub_l (optl (getl b (g_r1 g))) 0 (g_o1 g) in
+  let post := if g_ln g || (blen b =? 0) then [nlc] else sub_l (optl (getl b (g_r2 g))) (g_o2 g) (-1) in
+  let '(rep, row, off, nls) := vi_input pref post typed in
+  let top' := snd (nextlines rows nls (g_r1 g, v_top s)) in
+  let b' := lbuf_edit b (Some rep) (g_r1 g) (g_r2 g + 1) in
+  finish rows b' R' (vs_top (vs_pos s (g_r1 g + row - 1) off) top') true.
+
+(* vi_case *)
+Definition c_toupper (c : N) : N := if c_islower c then (c - 32)%N else c.
+Definition case_chr (op : okey) (c : chr) : chr :=
+  match c with
+  | x :: r => if (x <=? 127)%N
+              then (match op with
+                    | Ogu => c_tolower x
+                    | OgU => c_toupper x
+                    | _ => if c_islower x then c_toupper x else c_tolower x
+                    end) :: r
+              else c
+  | [] => c
+  end.
+Definition vi_case (rows : Z) (b : buf) (R : regs) (s : vst) (g : region) (op : okey) : est :=
+  let reg := map (case_chr op) (region_text b g) in
+  let b' := if g_ln g then lbuf_edit b (Some reg) (g_r1 g) (g_r2 g + 1)
+            else lbuf_edit b (Some (sub_l (optl (getl b (g_r1 g))) 0 (g_o1 g) ++ reg ++ sub_l (optl (getl b (g_r2 g))) (g_o2 g) (-1)))
+                           (g_r1 g) (g_r2 g + 1) in
+  finish rows b' R (vs_pos s (g_r2 g) (if g_ln g then lbuf_indents b' (g_r2 g) else g_o2 g)) true.
+
+(* vi_shift *)
+Definition shift_line (right : bool) (l : line) : list chr :=
+  if right then (match l with c :: _ => if is_nlb c then l else [9%N] :: l | [] => l end)
+  else match l with c :: r => if is_blankc c then r else l | [] => l end.
+Fixpoint shift_rows (right : bool) (n : nat) (i : Z) (b : buf) : buf :=
+  match n with
+  | O => b
+  | S n' => shift_rows right n' (i + 1)
+              (match getl b i with Some l => lbuf_edit b (Some (shift_line right l)) i (i + 1) | None => b end)
+  end.
+Definition vi_shift (rows : Z) (b : buf) (R : regs) (s : vst) (g : region) (right : bool) : est :=
+  let b' := shift_rows right (Z.to_nat (g_r2 g - g_r1 g + 1)) (g_r1 g) b in
+  finish rows b' R (vs_pos s (g_r1 g) (lbuf_indents b' (g_r1 g))) true.
+
+(* vc_motion(cmd): ybuf = register name (0 = none), a1 a2 = the two counts (0 = none) *)
+Definition exec_op (rows : Z) (e : est) (ybuf : N) (a1 : Z) (op : okey) (a2 : Z) (t : tgt) (typed : list chr) : option est :=
+  let b := s_buf e in let s := s_vs e in let R := s_regs e in
+  let o1 := ren_noeol (getl b (v_row s)) (v_off s) in
+  match op_target b rows s a1 a2 t o1 with
+  | TFuel => None
+  | TFail cl cc => Some (finish rows b R (vs_mot s cl cc (v_pcol s)) false)
+  | TOk k r2 o2 cl cc pc =>
+      let s := vs_mot s cl cc pc in
+      let g := vc_region b k (v_row s) o1 r2 o2 in
+      Some (match op with
+            | Oy => finish rows b (vi_yank b R ybuf g) (vs_pos s (g_r1 g) (if g_ln g then v_off s else g_o1 g)) false
+            | Od => let (b', R') := vi_delete b R ybuf g in
+                    finish rows b' R' (vs_pos s (g_r1 g) (if g_ln g then lbuf_indents b' (g_r1 g) else g_o1 g)) true
+            | Oc => vi_change rows b R s ybuf g typed
+            | Olt => vi_shift rows b R s g false
+            | Ogt => vi_shift rows b R s g true
+            | Otilde | Ogu | OgU => vi_case rows b R s g op
+            end)
+  end.
+
+(* vc_put *)
+Fixpoint repeat_app {A} (n : nat) (x : list A) : list A := match n with O => [] | S n' => x ++ repeat_app n' x end.
+Definition exec_put (rows : Z) (e : est) (ybuf : N) (a1 : Z) (after : bool) : est :=
+  let b := s_buf e in let s := s_vs e in let R := s_regs e in
+  let cnt := Z.to_nat (Z.max 1 a1) in
+  match reg_get R ybuf with
+  | None => finish rows b R s false
+  | Some ([], _) => finish rows b R s false
+  | Some (txt, true) =>
+      let t := repeat_app cnt (chop txt) in
+      let b1 := if blen b =? 0 then lbuf_edit b (Some [nlc]) 0 0 else b in
+      let row := if after then v_row s + 1 else v_row s in
+      let b' := lbuf_edit b1 (Some t) row row in
+      finish rows b' R (vs_pos s row (lbuf_indents b' row)) true
+  | Some (txt, false) =>
+      let ct := chop txt in
+      let ln := if v_row s <? blen b then optl (getl b (v_row s)) else [nlc] in
+      let off := ren_noeol (Some ln) (v_off s) + (if negb (is_nlb (chr_at ln 0)) && after then 1 else 0) in
+      let t := sub_l ln 0 off ++ repeat_app cnt ct ++ sub_l ln off (-1) in
+      let b' := lbuf_edit b (Some t) (v_row s) (v_row s + 1) in
+      finish rows b' R (vs_pos s (v_row s) (off + slen ct * Z.of_nat cnt - 1)) true
+  end.
+
+(* vc_join *)
+Definition body_of (l : line) : list chr := removelast l.         (* sbuf_mem(sb, ln, lnend - ln) of a terminated line *)
+Definition last_byte (t : list chr) : N := last (last t []) 0%N.
+Definition join_spaces (prev next : list chr) : nat :=
+  if is_nil prev then 0%nat
+  else if N.eqb (last_byte prev) 32 || N.eqb (b0 (hd [] next)) 41 then 0%nat
+  else if N.eqb (last_byte prev) 46 then 2%nat else 1%nat.
+Fixpoint join_loop (ls : list line) (first : bool) (sb : list chr) (off : Z) : list chr * Z :=
+  match ls with
+  | [] => (sb, off)
+  | l :: r =>
+      let ln := if first then l else snd (span_blank l) in
+      let spaces := if first then 0%nat else join_spaces sb ln in
+      join_loop r false (sb ++ repeat [32%N] spaces ++ body_of ln) (slen sb)
+  end.
+Definition exec_join (rows : Z) (e : est) (a1 : Z) : est :=
+  let b := s_buf e in let s := s_vs e in let R := s_regs e in
+  let cnt := if a1 <=? 1 then 2 else a1 in
+  let beg := v_row s in
+  let en := v_row s + cnt in
+  match getl b beg, getl b (en - 1) with
+  | Some _, Some _ =>
+      let (sb, off) := join_loop (rows_between b beg en) true [] 0 in
+      let b' := lbuf_edit b (Some (sb ++ [nlc])) beg en in
+      finish rows b' R (vs_pos s (v_row s) off) true
+  | _, _ => finish rows b R s false
+  end.
+
+(* vc_replace *)
+Definition exec_replace (rows : Z) (e : est) (a1 : Z) (cs : chr) : est :=
+  let b := s_buf e in let s := s_vs e in let R := s_regs e in
+  let cnt := Z.max 1 a1 in
+  match getl b (v_row s) with
+  | None => finish rows b R s false
+  | Some ln =>
+      let off := ren_noeol (Some ln) (v_off s) in
+      let span := firstn (Z.to_nat cnt) (skipn (Z.to_nat off) ln) in
+      if negb (forallb (fun c => negb (is_nlb c)) span) || (slen span <? cnt) then finish rows b R s false
+      else
+        let t := sub_l ln 0 off ++ repeat_app (Z.to_nat cnt) [cs] ++ sub_l ln (off + cnt) (-1) in
+        let b' := lbuf_edit b (Some t) (v_row s) (v_row s + 1) in
+        if is_nlb cs then finish rows b' R (vs_pos s (v_row s + cnt) 0) true
+        else finish rows b' R (vs_pos s (v_row s) (off + cnt - 1)) true
+  end.
+
+(* vc_insert *)
+Inductive ikey := Ii | Ia | II | IA | Io | IO.
+Definition is_oO (k : ikey) : bool := match k with Io | IO => true | _ => false end.
+Definition exec_insert (rows : Z) (e : est) (k : ikey) (typed : list chr) : est :=
+  let b := s_buf e in let s := s_vs e in let R := s_regs e in
+  let oln := getl b (v_row s) in
+  let xoff := match k with II => lbuf_indents b (v_row s) | IA => lbuf_eol b (v_row s) | _ => v_off s end in
+  let xoff := ren_noeol oln xoff in
+  let rt := match k with Io => nextlines rows 1 (v_row s, v_top s) | _ => (v_row s, v_top s) end in
+  let off := match k with Ii | II => xoff | Ia | IA => xoff + 1 | _ => 0 end in
+  let off := match oln with Some (c :: _) => if is_nlb c then 0 else off | _ => off end in
+  let line_ins := match oln with Some _ => negb (is_oO k) | None => false end in
+  let pref := if line_ins then sub_l (optl oln) 0 off else vi_indents oln in
+  let post := if line_ins then sub_l (optl oln) off (-1) else [nlc] in
+  let '(rep, row, off', nls) := vi_input pref post typed in
+  let (xrow, top') := nextlines rows nls rt in
+  let b1 := if is_oO k && (blen b =? 0) then lbuf_edit b (Some [nlc]) 0 0 else b in
+  let beg := xrow - row + 1 in
+  let b' := lbuf_edit b1 (Some rep) beg (beg + (if is_oO k then 0 else 1)) in
+  finish rows b' R (vs_top (vs_pos s xrow off') top') true.
+
+(* ---------- key programs ---------- *)
+Inductive cmd :=
+| CGoto (n : Z)
+| CMot (cnt : Z) (k : mkey)
+| COp (reg : N) (a1 : Z) (op : okey) (a2 : Z) (t : tgt) (typed : list chr)
+| CPut (reg : N) (cnt : Z) (after : bool)
+| CJoin (cnt : Z)
+| CReplace (cnt : Z) (c : chr)
+| CIns (k : ikey) (typed : list chr).
+(* x X D C s S Y ~ push a key back and call vc_motion *)
+Definition c_x (reg : N) (cnt : Z) : cmd := COp reg cnt Od 0 (TMot Kspace) [].
+Definition c_X (reg : N) (cnt : Z) : cmd := COp reg cnt Od 0 (TMot Kbs) [].
+Definition c_D (reg : N) (cnt : Z) : cmd := COp reg cnt Od 0 (TMot Kdollar) [].
+Definition c_C (reg : N) (cnt : Z) (typed : list chr) : cmd := COp reg cnt Oc 0 (TMot Kdollar) typed.
+Definition c_s (reg : N) (cnt : Z) (typed : list chr) : cmd := COp reg cnt Oc 0 (TMot Kspace) typed.
+Definition c_S (reg : N) (cnt : Z) (typed : list chr) : cmd := COp reg cnt Oc 0 TDbl typed.
+Definition c_Y (reg : N) (cnt : Z) : cmd := COp reg cnt Oy 0 TDbl [].
+Definition c_tilde (cnt : Z) : cmd := COp 0%N cnt Otilde 0 (TMot Kspace) [].
+
+Definition exec1 (rows : Z) (c : cmd) (e : est) : option est :=
+  match c with
+  | CGoto n => Some (mk_est (s_buf e) (do_goto (s_buf e) rows n (s_vs e)) (s_regs e))
+  | CMot cnt k => match do_motion (s_buf e) rows cnt 0 k (s_vs e) with
+                  | Some s' => Some (mk_est (s_buf e) s' (s_regs e))
+                  | None => None
+                  end
+  | COp reg a1 op a2 t typed => exec_op rows e reg a1 op a2 t typed
+  | CPut reg cnt after => Some (exec_put rows e reg cnt after)
+  | CJoin cnt => Some (exec_join rows e cnt)
+  | CReplace cnt c => Some (exec_replace rows e cnt c)
+  | CIns k typed => Some (exec_insert rows e k typed)
+  end.
+Fixpoint exec (rows : Z) (cs : list cmd) (e : est) : option est :=
+  match cs with
+  | [] => Some e
+  | c :: r => match exec1 rows c e with Some e' => exec rows r e' | None => None end
+  end.
+Definition init_est (b : buf) : est := mk_est b init_vst regs0.
+Definition exec_prog (b : buf) (rows : Z) (cs : list cmd) : option est := exec rows cs (init_est b).
